@@ -20,9 +20,9 @@ Pen == Pending(r.kind, r.sent, r.arr)
 L1 == /\ C08_OkOnlyIfAck(r.kind, r.sent, Pen, Res)
       /\ C08_ConcurrencyOnlyIfAnswered(r.kind, r.sent, Pen, Res)
       /\ C08_QueryErrorOtherwise(r.kind, r.sent, Pen, Res)
-      /\ (C08_OkIffAck(r.kind, r.sent, Pen, Res) \/ EarlyExitAfterAck(r.kind, r.sent, Pen, Res))
+      /\ (C08_OkIffAck(r.kind, r.sent, r.arr, Res) \/ EarlyExitAfterAck(r.kind, r.sent, r.arr, Res))
 \* the literal formula: expected to fail (KF-C08-1) when EarlyMajority = TRUE and MaxN >= 5
-Literal == C08_OkIffAck(r.kind, r.sent, Pen, Res)
+Literal == C08_OkIffAck(r.kind, r.sent, r.arr, Res)
 Emit == PrintT(<<"GEN", ToJson(r)>>)
 \* rule table of C17 over all relations of the two items
 Rel == [sig : {"A", "B"}, seq : 0..2, cas : {-1, 0, 1, 2}]
